@@ -767,7 +767,7 @@ def run(ctx: lib.Ctx) -> None:
 
     mutated = set()
     pool = [n for n in names if len(n) <= 9]
-    for _ in range(ctx.n(600, 6000)):
+    for _ in range(ctx.n(350, 6000)):
         n = rng.choice(pool)
         i = rng.randrange(len(n) + 1)
         k = rng.random()
@@ -876,7 +876,7 @@ def run(ctx: lib.Ctx) -> None:
             elif len(n) <= 7 or rng.random() < ctx.n(10, 3) / 1000:
                 sem_names.append(n)
         elif re.fullmatch(r'C[AD]+R', n):
-            if len(n) <= ctx.n(6, 9) or rng.random() < ctx.n(8, 20) / 100:
+            if len(n) <= ctx.n(6, 9) or rng.random() < ctx.n(5, 20) / 100:
                 sem_names.append(n)
         else:
             sem_names.append(n)
